@@ -181,7 +181,9 @@ DIRECTIVES = ["%Y", "%y", "%m", "%d", "%B", "%b", "%A", "%a", "%H", "%I", "%p", 
 # CPython's own strptime raises re.error for it), so they are only generated on their own
 COMPOUND = ["%c", "%x", "%X"]
 TZ_NAMES = ["UTC", "America/New_York", "Europe/Paris", "Asia/Kolkata", "Australia/Lord_Howe", "Pacific/Apia", "Pacific/Kiritimati",
-            "Etc/GMT+12", "EST", "PST", "IST", "AEST", "+05:30", "-0800", "UTC+3", "GMT-2", "UTC+14:00", "UTC-12:00", "local", "Z", "CET"]
+            "Etc/GMT+12", "EST", "PST", "IST", "AEST", "+05:30", "-0800", "UTC+3", "GMT-2", "UTC+14:00", "UTC-12:00", "local", "Z", "CET",
+            # abbreviations and offsets are matched case-insensitively by the library's own table (not tz database names)
+            "pkt", "Pkt", "ist", "Gmt-3", "gmt+5", "utc+05:30", "aest", "Pst", "pdt", "nzdt", "akdt", "utc+3"]
 ALL_PARSERS = ["timestamp", "negative-timestamp", "relative-time", "custom-formats", "absolute-time", "no-spaces-time"]
 
 AUTO_POOL = [None, None, None,
